@@ -5,7 +5,7 @@ namespace Physis.Crc
 open Physis.Generated Physis.Spec
 
 theorem tableStep_eq (c : UInt32) : tableStep c = Crc32.bitStep c := by
-  simp only [tableStep, Crc32.bitStep, jamcrcPolynomial, Crc32.poly]; bv_decide
+  simp only [tableStep, Crc32.bitStep, jamcrcPolynomial, Crc32.poly]; bv_decide (timeout := 300)
 
 theorem tableEntry_eq (i : UInt32) :
     tableEntry i = Crc32.byteStep i 0 := by
@@ -20,12 +20,12 @@ theorem table_get (i : Nat) (h : i < 256) : table[i]! = tableEntry i.toUInt32 :=
 /-- the table-driven update equals 8 bitwise steps on `c ^ byte` -/
 theorem split8 (c : UInt32) (b : UInt8) :
     Crc32.byteStep ((c ^^^ b.toUInt32) &&& 0xFF) 0 ^^^ (c >>> 8) = Crc32.byteStep c b := by
-  simp only [Crc32.byteStep, Crc32.bitStep, Crc32.poly]; bv_decide
+  simp only [Crc32.byteStep, Crc32.bitStep, Crc32.poly]; bv_decide (timeout := 300)
 
 theorem update_eq (c : UInt32) (b : UInt8) : update c b = Crc32.byteStep c b := by
   unfold update
   have hlt : ((c ^^^ b.toUInt32) &&& 0xFF).toNat < 256 := by
-    have : ((c ^^^ b.toUInt32) &&& 0xFF) < 256 := by bv_decide
+    have : ((c ^^^ b.toUInt32) &&& 0xFF) < 256 := by bv_decide (timeout := 300)
     exact this
   rw [table_get _ hlt, tableEntry_eq]
   have : (((c ^^^ b.toUInt32) &&& 0xFF).toNat).toUInt32 = ((c ^^^ b.toUInt32) &&& 0xFF) := by
@@ -33,7 +33,7 @@ theorem update_eq (c : UInt32) (b : UInt8) : update c b = Crc32.byteStep c b := 
   rw [this, split8]
 
 theorem final_eq (c : UInt32) : ~~~(c ^^^ jamcrcFinalXor) = c ^^^ 0 := by
-  simp only [jamcrcFinalXor]; bv_decide
+  simp only [jamcrcFinalXor]; bv_decide (timeout := 300)
 
 theorem foldl_update_eq (s : Bytes) (c : UInt32) :
     s.foldl update c = s.foldl Crc32.byteStep c := by
